@@ -65,6 +65,15 @@ func Build(calls []Call) (*canvas.Path, *Model) {
 	return p, m
 }
 
+// BuildReal runs only the real calls.
+func BuildReal(calls []Call) *canvas.Path {
+	p := &canvas.Path{}
+	for _, c := range calls {
+		p = c.Real(p)
+	}
+	return p
+}
+
 func names(calls []Call) string {
 	s := ""
 	for i, c := range calls {
@@ -81,9 +90,9 @@ func names(calls []Call) string {
 func menuPaths() [][]Call {
 	P := func(x, y float64) Pt { return Pt{X: x, Y: y} }
 	return [][]Call{
-		{moveTo(P(0, 0)), lineTo(P(1, 0))},                                                    // open line
-		{moveTo(P(1, 0)), lineTo(P(1, 1)), lineTo(P(0, 1)), closeCall()},                      // closed triangle
-		{moveTo(P(1, 1)), quadTo(P(2, 1), P(2, 2))},                                           // open curve
+		{moveTo(P(0, 0)), lineTo(P(1, 0))},                                                                 // open line
+		{moveTo(P(1, 0)), lineTo(P(1, 1)), lineTo(P(0, 1)), closeCall()},                                   // closed triangle
+		{moveTo(P(1, 1)), quadTo(P(2, 1), P(2, 2))},                                                        // open curve
 		{moveTo(P(0, 0)), lineTo(P(1, 0)), moveTo(P(1, 1)), lineTo(P(2, 1)), lineTo(P(2, 2)), closeCall()}, // two subpaths
 	}
 }
@@ -91,13 +100,13 @@ func menuPaths() [][]Call {
 func joinCall(k int) Call {
 	qc := menuPaths()[k]
 	return Call{fmt.Sprintf("Join(%s)", menuName(k)),
-		func(p *canvas.Path) *canvas.Path { q, _ := Build(menuPaths()[k]); return p.Join(q) },
+		func(p *canvas.Path) *canvas.Path { return p.Join(BuildReal(qc)) },
 		func(m *Model) { _, qm := Build(qc); m.Join(qm, qc) }}
 }
 func appendCall(k int) Call {
 	qc := menuPaths()[k]
 	return Call{fmt.Sprintf("Append(%s)", menuName(k)),
-		func(p *canvas.Path) *canvas.Path { q, _ := Build(menuPaths()[k]); return p.Append(q) },
+		func(p *canvas.Path) *canvas.Path { return p.Append(BuildReal(qc)) },
 		func(m *Model) { _, qm := Build(qc); m.Append(qm) }}
 }
 
@@ -148,7 +157,7 @@ func Alphabet() []Call {
 	a = append(a,
 		arcTo(2, 1, 30, false, false, P(2, 0)), arcTo(2, 1, 30, true, true, P(2, 0)), // rotated ellipse
 		arcTo(1, 2, 0, true, false, P(1, 1)), arcTo(1, 2, 0, false, true, P(1, 1)), // rx < ry
-		arcTo(0, 1, 0, false, false, P(2, 0)),                                       // zero radius: a line
+		arcTo(0, 1, 0, false, false, P(2, 0)),                                               // zero radius: a line
 		arcTo(0.1, 0.1, 0, false, false, P(1, 1)), arcTo(0.1, 0.1, 0, false, true, P(1, 1)), // radii too small
 		arcTo(-2, 1, 210, false, true, P(0, 1)), // negative radius, rotation outside [0,180)
 	)
@@ -271,7 +280,9 @@ func gridModel(m *Model, w, h float64, nx, ny int, r float64) {
 
 // Shapes is the menu of whole-path sources.
 func Shapes() []shape {
-	S := func(name string, real func() *canvas.Path, model func(m *Model)) shape { return shape{name, real, model} }
+	S := func(name string, real func() *canvas.Path, model func(m *Model)) shape {
+		return shape{name, real, model}
+	}
 	return []shape{
 		S("Line(2,1)", func() *canvas.Path { return canvas.Line(2, 1) }, func(m *Model) { m.LineTo(Pt{X: 2, Y: 1}) }),
 		S("Line(0,0)", func() *canvas.Path { return canvas.Line(0, 0) }, func(m *Model) {}),
